@@ -38,7 +38,11 @@ pub struct Extra {
     /// verbosity: 0 = -q (all other runs), 1 = nothing, 2 = -v, 3 = -vv, 4 = -vvv, 5 = --rust_log trace, 6 = RUST_LOG=trace
     /// in the environment. Logging goes to stderr; stdout must be the same interpretations.
     pub verb: u8,
+    /// `--export <fresh file>` in the same run as the semantics flags (only the naive mode exports)
+    pub export: bool,
 }
+
+static EXPORT_COUNTER: std::sync::atomic::AtomicU64 = std::sync::atomic::AtomicU64::new(0);
 
 pub const VERB_NAMES: [&str; 7] = ["-q", "(no verbosity option)", "-v", "-vv", "-vvv", "--rust_log trace", "RUST_LOG=trace in the environment"];
 
@@ -75,6 +79,15 @@ pub fn cli_case_x(cli: &str, path: &str, inp: &Input, mode: &str, sort: usize, f
     if extra.import {
         args.push("--import".into());
     }
+    let mut export_target = None;
+    if extra.export {
+        let dir = std::path::Path::new(path).parent().map(|p| p.to_string_lossy().to_string()).unwrap_or_else(|| ".".into());
+        let t = format!("{}/export_in_run_{}_{}.json", dir, std::process::id(), EXPORT_COUNTER.fetch_add(1, std::sync::atomic::Ordering::SeqCst));
+        let _ = std::fs::remove_file(&t);
+        args.push("--export".into());
+        args.push(t.clone());
+        export_target = Some(t);
+    }
     if extra.counter > 0 {
         args.push("--counter".into());
         args.push(["", "nai", "mem"][extra.counter as usize].into());
@@ -93,7 +106,13 @@ pub fn cli_case_x(cli: &str, path: &str, inp: &Input, mode: &str, sort: usize, f
     }
     args.push(path.into());
     let o = if extra.verb == 6 { run_cli_env(cli, &args, &[("RUST_LOG", "trace")]) } else { run_cli(cli, &args) };
-    let tag = format!("{}{}{}", mode, if heu.is_some() { "+heu" } else { "" }, if extra.verb > 0 { "+verbosity" } else { "" });
+    let tag = format!("{}{}{}{}", mode, if heu.is_some() { "+heu" } else { "" }, if extra.verb > 0 { "+verbosity" } else { "" }, if extra.export { "+export" } else { "" });
+    if let Some(t) = &export_target {
+        if mode == "naive" && o.code == Some(0) && !std::path::Path::new(t).exists() {
+            out.push((format!("{}:export-missing", tag), "the run was asked to export but the file does not exist afterwards".into()));
+        }
+        let _ = std::fs::remove_file(t);
+    }
     if o.code != Some(0) {
         out.push((format!("{}:exit", tag), format!("exit status {:?} for a well-formed input: {}", o.code, o.stderr.lines().last().unwrap_or("").chars().take(200).collect::<String>())));
         return out;
@@ -314,11 +333,13 @@ pub fn cli_slice(run: &Run, flagsets: &[u32], heus: &[Option<usize>]) {
         // import of the exported state, with and without --counter (naive mode), and --counter on parsed input
         for f in flagsets {
             for counter in 0..3u8 {
-                jobs.push(Job { file, mode: 0, sort: 0, flags: *f, heu: heus[0], extra: Extra { import: true, counter, verb: 0 } });
+                jobs.push(Job { file, mode: 0, sort: 0, flags: *f, heu: heus[0], extra: Extra { import: true, counter, verb: 0, export: false } });
             }
             for mode in [0usize, 2] {
-                jobs.push(Job { file, mode, sort: file % 3, flags: *f, heu: heus[0], extra: Extra { import: false, counter: 1 + (file % 2) as u8, verb: 0 } });
+                jobs.push(Job { file, mode, sort: file % 3, flags: *f, heu: heus[0], extra: Extra { import: false, counter: 1 + (file % 2) as u8, verb: 0, export: false } });
             }
+            // the state is exported in the same run that computes the answers
+            jobs.push(Job { file, mode: 0, sort: (file + 1) % 3, flags: *f, heu: heus[0], extra: Extra { export: true, ..Extra::default() } });
         }
     }
     let res = run.par_family(
@@ -337,8 +358,8 @@ pub fn cli_slice(run: &Run, flagsets: &[u32], heus: &[Option<usize>]) {
                 let flags: Vec<&str> = (0..10).filter(|i| job.flags >> i & 1 == 1).map(|i| FLAGS[i]).collect();
                 run.violation(
                     &format!("cli:{}{}", if job.extra.import { "import:" } else { "" }, kind),
-                    format!("{} [--lib {} {} {} {}{}{}] on {}", msg, MODES[job.mode], SORTS[job.sort], flags.join(" "), job.heu.map(|h| format!("--heu {}", HEUS[h])).unwrap_or_default(), if job.extra.import { " --import (of the exported state)" } else { "" }, ["", " --counter nai", " --counter mem"][job.extra.counter as usize], inp.text.replace('\n', "")),
-                    json!({"type": "cli", "text": inp.text, "labels": inp.labels, "tts": inp.tts, "mode": MODES[job.mode], "sort": job.sort, "flags": job.flags, "heu": job.heu.map(|h| HEUS[h]), "import": job.extra.import, "counter": job.extra.counter, "ring": inp.ring.map(|r| vec![r.0 as u64, r.1])}),
+                    format!("{} [--lib {} {} {} {}{}{}] on {}", msg, MODES[job.mode], SORTS[job.sort], flags.join(" "), job.heu.map(|h| format!("--heu {}", HEUS[h])).unwrap_or_default(), if job.extra.import { " --import (of the exported state)" } else if job.extra.export { " --export <fresh file>" } else { "" }, ["", " --counter nai", " --counter mem"][job.extra.counter as usize], inp.text.replace('\n', "")),
+                    json!({"type": "cli", "text": inp.text, "labels": inp.labels, "tts": inp.tts, "mode": MODES[job.mode], "sort": job.sort, "flags": job.flags, "heu": job.heu.map(|h| HEUS[h]), "import": job.extra.import, "counter": job.extra.counter, "export": job.extra.export, "ring": inp.ring.map(|r| vec![r.0 as u64, r.1])}),
                 );
             }
         },
@@ -477,6 +498,12 @@ pub fn run_c15(run: &Run) {
             jobs.push(Job { file: fixed_from + k, mode: 0, sort: k % 3, flags: (1 << 8) | 1, heu: Some(h), extra: Extra::default() });
         }
     }
+    // --export in the same run as the semantics flags (naive mode): fixed and larger inputs
+    for file in fixed_from..big_to {
+        let n = inputs[file].labels.len();
+        let flags = if n < 100 || !quick { 0b100000111 } else { 0b100000101 };
+        jobs.push(Job { file, mode: 0, sort: file % 3, flags, heu: None, extra: Extra { export: true, ..Extra::default() } });
+    }
     // verbosity: logging goes to stderr, stdout stays the interpretations
     for k in 0..nfixed {
         for mode in 0..3 {
@@ -522,7 +549,7 @@ pub fn run_c15(run: &Run) {
                 run.violation(
                     &kind,
                     format!("{} [--lib {} {} {} {} {}] on {}", msg, MODES[job.mode], SORTS[job.sort], flags.join(" "), job.heu.map(|h| format!("--heu {}", HEUS[h])).unwrap_or_default(), VERB_NAMES[job.extra.verb as usize], inp.text.replace('\n', "")),
-                    json!({"type": "cli", "text": inp.text, "labels": inp.labels, "tts": inp.tts, "mode": MODES[job.mode], "sort": job.sort, "flags": job.flags, "heu": job.heu.map(|h| HEUS[h]), "ring": inp.ring.map(|r| vec![r.0 as u64, r.1]), "verbosity": job.extra.verb}),
+                    json!({"type": "cli", "text": inp.text, "labels": inp.labels, "tts": inp.tts, "mode": MODES[job.mode], "sort": job.sort, "flags": job.flags, "heu": job.heu.map(|h| HEUS[h]), "ring": inp.ring.map(|r| vec![r.0 as u64, r.1]), "verbosity": job.extra.verb, "export": job.extra.export}),
                 );
             }
         },
@@ -560,7 +587,7 @@ pub fn replay(c: &Value) -> Vec<(String, String)> {
     let path = format!("{}/in.adf", tmp.0);
     std::fs::write(&path, &text).unwrap_or_else(|_| machinery_error("cannot write input file"));
     let ring = c.get("ring").and_then(|r| Some((r[0].as_u64()? as usize, r[1].as_u64()?)));
-    let extra = Extra { import: c["import"].as_bool().unwrap_or(false), counter: c["counter"].as_u64().unwrap_or(0) as u8, verb: c["verbosity"].as_u64().unwrap_or(0) as u8 };
+    let extra = Extra { import: c["import"].as_bool().unwrap_or(false), counter: c["counter"].as_u64().unwrap_or(0) as u8, verb: c["verbosity"].as_u64().unwrap_or(0) as u8, export: c["export"].as_bool().unwrap_or(false) };
     let mut run_path = path.clone();
     if extra.import {
         let exp = format!("{}/exp.json", tmp.0);
